@@ -2,6 +2,7 @@
     [sparse] = token_groups_to_sparse_coo_matrix ([None] = its assertions fail); an [item] is (groups, mean?). *)
 From TU Require Import Base C01_Model C01_Proofs C17_Model C17_Proofs C17_Check.
 From Coq Require Import QArith.
+From TU Require Import UAX29_Model C01_UAX29 C17_UAX29.
 Open Scope nat_scope.
 
 (** The token groups of the byte tokenizer partition the id sequence: the (nested) group lengths sum to the number
@@ -108,3 +109,66 @@ Example sparse_witness :
   /\ option_map s_size (sparse items [7; 1]) = Some [2; 3; 7]
   /\ sparse items [7; 2] = None.
 Proof. vm_compute. repeat split. Qed.
+
+(** ** Grapheme mode with the segmenter inside the model (UAX29_Model.segment, tied to the crate
+    unicode-segmentation by the correspondence [uax29_agree]).  [byte_groups_u b cpg s ign] = the groups of
+    the byte tokenizer in grapheme mode computing its own segmentation ([segment] of every regular segment
+    of the special-token split).  No premise on a segmentation is left. *)
+
+(** the group lengths sum to the number of ids; one group per prefix token, per cluster of [segment] of
+    each regular segment, per special token, per suffix token; every group is positive *)
+Theorem groups_partition_u : forall tokens padto pad prefix suffix b cpg s ign,
+  byte_base tokens padto pad prefix suffix = Some b ->
+  exists ids, byte_tokenize b s ign = Some ids
+    /\ list_sum (map tg_len (byte_groups_u b cpg s ign)) = length ids
+    /\ length (byte_groups_u b cpg s ign)
+       = length prefix + n_chars_u (split_input (b_sv b) s ign) + length suffix
+    /\ forallb positiveb (byte_groups_u b cpg s ign) = true.
+Proof. exact groups_partition_u_l. Qed.
+Print Assumptions groups_partition_u.
+
+(** the groups written without an oracle *)
+Theorem byte_groups_u_spec : forall b cpg s ign,
+  byte_groups_u b cpg s ign
+  = repeat (Full 1) (length (b_pre b)) ++ segs_groups_u cpg (split_input (b_sv b) s ign)
+    ++ repeat (Full 1) (length (b_suf b)).
+Proof. exact byte_groups_u_eq. Qed.
+Print Assumptions byte_groups_u_spec.
+
+(** parsing off: exactly one group per cluster of [segment s], with as many tokens as the cluster has
+    UTF-8 bytes ([Full #bytes], or one nested [Full] per code point for code-point groups) *)
+Theorem groups_ign_u : forall b cpg s,
+  byte_groups_u b cpg s true
+  = repeat (Full 1) (length (b_pre b)) ++ map (cluster_group cpg) (segment s)
+    ++ repeat (Full 1) (length (b_suf b))
+  /\ Forall2 (fun c g => tg_len g = length (utf8s c)
+                         /\ g = (if cpg then Nested (map (fun x => Full (length (utf8 x))) c)
+                                 else Full (length (utf8s c))))
+             (segment s) (map (cluster_group cpg) (segment s)).
+Proof. exact groups_ign_u_l. Qed.
+Print Assumptions groups_ign_u.
+
+(** mode-0 inputs whose oracles are computed by the model pass the segmenter correspondence; an accepted
+    input carries, for every text and regular segment, the model's own segmentation *)
+Theorem uax29_agree_model : forall cfgv mean ign texts g segss,
+  c_g (v_cfg cfgv) = g ->
+  uax29_agree (L [I 0%Z; cfgv; mean; ign; texts;
+                  list_v (list_v (list_v str_v)) (map (oracle_u g) segss)]) = true.
+Proof. exact uax29_agree_mode0. Qed.
+Print Assumptions uax29_agree_model.
+
+Theorem uax29_agree_sound : forall v, uax29_agree v = true -> v_z (v_nth 0 v) = 0%Z ->
+  Forall (Forall (fun o => o = seg_of (c_g (v_cfg (v_nth 1 v))) (concat o)))
+         (v_list (v_list (v_list v_str)) (v_nth 5 v)).
+Proof. exact uax29_agree_sound_l. Qed.
+Print Assumptions uax29_agree_sound.
+
+(** Non-vacuity: "e U+0301 <pad> flag" parsed with default tokens: groups 3 bytes | special | 8 bytes; with
+    code-point groups the first is Nested [Full 1; Full 2] *)
+Example groups_u_witness :
+  let toks := [[60;117;110;107;62];[60;98;111;115;62];[60;101;111;115;62];[60;112;97;100;62]]%N in
+  exists b, byte_base toks None [60;112;97;100;62]%N [] [] = Some b
+    /\ byte_groups_u b false [101;769;60;112;97;100;62;127465;127466]%N false = [Full 3; Full 1; Full 8]
+    /\ byte_groups_u b true [101;769;60;112;97;100;62;127465;127466]%N false
+       = [Nested [Full 1; Full 2]; Full 1; Nested [Full 4; Full 4]].
+Proof. cbv zeta. eexists. split; [vm_compute; reflexivity|]. vm_compute. split; reflexivity. Qed.
